@@ -22,6 +22,8 @@
 #define MAX_NESTED_MACROS 128
 #define MAX_MACRO_LEN 1024
 #define MACROS_HEAP_SIZE 32768
+// Macro texts entered without a character of the source being read between.
+#define MAX_MACRO_EXPANSIONS 100000
 #define MAX_MACRO_LEN 1024
 #define CHAR_EOF -1
 #define IS_DEFINE 1
